@@ -1405,3 +1405,28 @@ def run(ctx):
     viol.validate()
     ctx.log(f'repro validation: {time.time() - t0:.1f}s')
     ctx.extra['coq_expressions_evaluated'] = len(E.exprs)
+    ctx.extra['coq_equalities_checked'] = len(E.goals)
+    ctx.extra['violations_by_key'] = sorted(viol.seen)
+    ctx.rule('univariate: 8 families x {non-constant data drawn for the family, constant data (3.0, 0.0, -2.5, 1000000.3, random), seeded} + '
+             'TruncatedGaussian bounds (keyword/positional/constant), GaussianKDE bw_method (scalar, name) / weights / sample_size / 2-point data, '
+             'the selecting wrapper (default, parametric, bounded, candidate classes, candidate name + instance), histories (fit constant then data), '
+             'np.std underflow; each through Univariate.from_dict(to_dict), JSON text, pickle file save/load, repeated n = 1..3')
+    ctx.rule('bivariate: 3 families x {fit on dependent uniforms, seeded} + set parameters incl. theta = inf / 0 / nan / solver bound, tau = nan / +-1, '
+             'unfitted; through Bivariate.from_dict, JSON text, JSON file save/load, n = 1..3; subclass entry points under the real class-cache '
+             'state; class-cache histories (1..5 from_dict/load calls on Bivariate/Clayton/Frank/Gumbel/Independence) in FRESH interpreters')
+    ctx.rule('gaussian multivariate: default wrapper, family class, FQN, per-column dict, constant column, integer column names, KDE instance with '
+             'bw_method, StudentT with a constant column; through Multivariate.from_dict, JSON text, pickle files, n = 1..3')
+    ctx.rule('vines: center/direct/regular on small correlated tables through VineCopula.from_dict, VineCopula.load, Multivariate.load, '
+             'Multivariate.from_dict (generic dispatch), n = 1..3; payload arrays (edge U, u-matrix, tau matrices) enter the model as tokens '
+             'injective on (shape, float64 bits); np.empty is NaN-filled during get_likelihood/sample so that unwritten cells (C17) are deterministic')
+    ctx.rule('every real dict is compared (Coq kernel, vm_compute + reflexivity) with to_dict_* of the abstraction of the real object (exact '
+             'rationals of the floats, insertion order kept), every rebuilt object with from_dict_* of that dict; the model prediction '
+             '"behaviour kind k is preserved" must imply bitwise equality of the real outputs on probe inputs')
+    ctx.trusted += ['Model.Lifecycle / Spec.VineSerial are hand-written transcriptions of to_dict/from_dict/_set_params/get_instance/Bivariate.__new__; '
+                    'tied to the source by the AST-generated key facts and by the state correspondence on real round trips',
+                    'abstraction functions of tools/vf/serial.py (real object -> model state), the recording subclass of scipy.stats.gaussian_kde',
+                    'pickle and json are oracles: pickle = deep copy of the attribute record (checked per case), json = identity on json_safe values (checked per case)',
+                    'bitwise comparison of outputs on finitely many probe inputs stands for "identical on any input" in the oracle; the theorems give it for the behaviour selector']
+    ctx.assumptions += ['scipy distribution methods are deterministic functions of (input, parameters): equal behaviour selectors give equal outputs',
+                        'statistical clause: none - C14 is fully deterministic; "sample stream identical" is checked under an equal seed set on both objects '
+                        '(to_dict does not carry the random state by design: C14_roundtrip_drops_random_state; pickle does)']
